@@ -166,10 +166,6 @@ TWELVE = [
 ]
 
 
-class _Map(dict):
-    root = "memory://x"
-
-
 def reported_lines(exc):
     nums = []
     for e in exc.exceptions:
@@ -212,7 +208,7 @@ def execute_malformed(case):
     from ceos_alos2.summary import open_summary
 
     def seam(lines):
-        return open_summary(_Map({"summary.txt": ("\n".join(lines) + "\n").encode()}), "summary.txt")
+        return open_summary(harness.mem_mapper({"summary.txt": ("\n".join(lines) + "\n").encode()}), "summary.txt")
 
     fails, n = [], 0
     for mask in range(case["lo"], case["hi"]):
@@ -254,12 +250,10 @@ def execute_numbering(case):
         numbered = numbered[::-1]
     lines = lines[:5] + numbered + lines[5:]
 
-    class M(dict):
-        root = "x"
 
     fails = []
     try:
-        g = open_summary(M({"summary.txt": ("\n".join(lines) + "\n").encode()}), "summary.txt")
+        g = open_summary(harness.mem_mapper({"summary.txt": ("\n".join(lines) + "\n").encode()}), "summary.txt")
         attrs = g["product_information"]["data_files"].attrs
         got = {k: (list(v) if isinstance(v, (list, tuple)) else v) for k, v in attrs.items()}
         want = {"volume_directory": assigned[0], "sar_leader": assigned[1], "sar_imagery": assigned[2:-1], "sar_trailer": assigned[-1]}
